@@ -1,4 +1,5 @@
 """C14 — runners validate requests, deliver enough shots and count their work correctly."""
+import gc
 import itertools
 import json
 import os
@@ -16,7 +17,11 @@ RULE = ("seeded random call histories (single / batch / distribution calls, vali
         "SymbolicSimulator, a BaseWavefunctionSimulator subclass with the default is_natively_supported, each bare or "
         "under one or two MeasurementTrackingBackend wrappers; circuits include empty zero-width ones, idle qubits, "
         "non-gate operations and free symbols; counters, results and every tracker's JSON file are compared with the "
-        "model after every call.  non-trivial: a history with >=1 rejected and >=1 accepted call and >=2 call kinds; "
+        "model after every call.  Circuits reach the ONE long-lived runner chain of a history in two ways: persistent "
+        "(one object per pool entry reused by every call, repeated inside batches, sometimes grown IN PLACE between "
+        "calls) or ephemeral (every call on freshly built objects that are dropped afterwards, so object ids are "
+        "reused by later circuits); every record is checked against the serialisation of the circuit of ITS call, "
+        "taken at call time.  non-trivial: a history with >=1 rejected and >=1 accepted call and >=2 call kinds; "
         "distinct = distinct canonical JSON of the case")
 TRUSTED = [
     "abstract _run_and_measure of a BaseCircuitRunner subclass: for n>0 returns >= n shots, each a tuple as long as "
@@ -32,6 +37,8 @@ TRUSTED = [
 ASSUMPTIONS = [
     "circuits given to a tracker consist of gate operations only (to_dict raises AttributeError on "
     "MultiPhaseOperation/ResetOperation – serialisation of wavefunction operations is not implemented)",
+    "a `grow` step appends a gate on an existing qubit to circuit.operations in place (the register width, fixed at "
+    "construction, does not change); the model sees every content version of a circuit as its own label",
     "sample counts are Python ints (numpy integers make run_batch_and_measure raise TypeError on len())",
     "the harness BaseCircuitRunner subclass refuses circuits with free symbols with ValueError, like the simulators",
     "the tracker's own counters are specified by the property only as: never decrease, unchanged by a rejected call; "
@@ -113,25 +120,14 @@ def _abstract(spec):
 
 def _build_circuit(spec):
     m = _mods()
-    C, sympy = m["C"], m["sympy"]
+    C = m["C"]
     w = _width(spec)
     ops = []
     for op in spec["ops"]:
-        k = op[0]
-        if k == "H":
-            ops.append(C.H(op[1]))
-        elif k == "X":
-            ops.append(C.X(op[1]))
-        elif k == "CNOT":
-            ops.append(C.CNOT(op[1], op[2]))
-        elif k == "RX":
-            ops.append(C.RX(float(unrat(op[2])))(op[1]))
-        elif k == "RXS":
-            ops.append(C.RX(sympy.Symbol("theta"))(op[1]))
-        elif k == "MP":
+        if op[0] == "MP":
             ops.append(C.MultiPhaseOperation(tuple(0.25 * (i % 5) for i in range(2 ** w))))
         else:
-            raise AssertionError(k)
+            ops.append(_gate(op))
     return C.Circuit(ops, n_qubits=spec.get("n") or None) if (spec.get("n") or ops) else C.Circuit()
 
 
@@ -194,15 +190,62 @@ def _build_runner(spec, td, log, labels, chain, spies):
     return r
 
 
-def _apply(runner, call, pool):
+def _gate(op):
+    m = _mods()
+    C, sympy = m["C"], m["sympy"]
+    k = op[0]
+    if k == "H":
+        return C.H(op[1])
+    if k == "X":
+        return C.X(op[1])
+    if k == "CNOT":
+        return C.CNOT(op[1], op[2])
+    if k == "RX":
+        return C.RX(float(unrat(op[2])))(op[1])
+    if k == "RXS":
+        return C.RX(sympy.Symbol("theta"))(op[1])
+    raise AssertionError(k)
+
+
+def _resolve(c):
+    """A history may contain `grow` steps, which append a gate IN PLACE to a circuit object that earlier calls already
+    used.  Every content version of a pool entry gets its own label (what the model and the oracle see):
+    returns (specs by label, plan) with plan entries ("grow", pool index, gate, new label) / ("call", resolved call,
+    pool indices)."""
+    specs = [dict(sp) for sp in c["pool"]]
+    cur = list(range(len(specs)))
+    plan = []
+    for call in c["calls"]:
+        if call["op"] == "grow":
+            i = call["c"]
+            old = specs[cur[i]]
+            specs.append({"n": old.get("n"), "ops": list(old["ops"]) + [list(call["gate"])]})
+            cur[i] = len(specs) - 1
+            plan.append(("grow", i, call["gate"], cur[i]))
+        elif call["op"] == "batch":
+            rc = dict(call)
+            rc["cs"] = [cur[i] for i in call["cs"]]
+            plan.append(("call", rc, list(call["cs"])))
+        else:
+            rc = dict(call)
+            rc["c"] = cur[call["c"]]
+            plan.append(("call", rc, [call["c"]]))
+    return specs, plan
+
+
+def _real_calls(c):
+    return [p[1] for p in _resolve(c)[1] if p[0] == "call"]
+
+
+def _apply(runner, call, circuits):
     try:
         if call["op"] == "run":
-            return {"meas": _canon_meas(runner.run_and_measure(pool[call["c"]], call["n"]))}
+            return {"meas": _canon_meas(runner.run_and_measure(circuits[0], call["n"]))}
         if call["op"] == "batch":
-            ns = call["ns"] if "ns" in call else call["n"]
-            return {"batch": [_canon_meas(x) for x in runner.run_batch_and_measure([pool[i] for i in call["cs"]], ns)]}
+            ns = list(call["ns"]) if "ns" in call else call["n"]
+            return {"batch": [_canon_meas(x) for x in runner.run_batch_and_measure(circuits, ns)]}
         if call["op"] == "dist":
-            return {"dist": _canon_dist(runner.get_measurement_outcome_distribution(pool[call["c"]], call.get("n")))}
+            return {"dist": _canon_dist(runner.get_measurement_outcome_distribution(circuits[0], call.get("n")))}
     except ValueError:
         return "err:value"
     except TypeError:
@@ -212,25 +255,56 @@ def _apply(runner, call, pool):
     raise AssertionError(call)
 
 
-def _history(c):
+def _serialise(circ):
     m = _mods()
-    pool = [_build_circuit(s) for s in c["pool"]]
-    labels = {id(x): i for i, x in enumerate(pool)}
-    ser = []
-    for x in pool:
-        try:
-            ser.append(m["C"].to_dict(x))
-        except AttributeError:
-            ser.append(None)
+    try:
+        return json.loads(json.dumps(m["C"].to_dict(circ)))
+    except AttributeError:      # wavefunction operations cannot be serialised (never given to a tracker)
+        return None
+
+
+def _history(c):
+    """Run the history on ONE long-lived runner chain.
+    persistent mode: one Circuit object per pool entry, reused by every call (the same object may occur several times
+      in a batch and across calls; `grow` steps mutate it in place between calls);
+    ephemeral mode: every call gets freshly built Circuit objects that are dropped right after the call, so CPython
+      hands their addresses to the circuits of later calls (`runner.run_and_measure(ansatz.bind(p), n)` in a loop)."""
+    m = _mods()
+    specs, plan = _resolve(c)
+    ephemeral = bool(c.get("ephemeral"))
+    pool = None if ephemeral else [_build_circuit(sp) for sp in c["pool"]]
+    labels = {}
+    ser = [None] * len(specs)
     log, chain, spies = [], [], []
     with tempfile.TemporaryDirectory(prefix="oq_c14_") as td:
         runner = _build_runner(c["runner"], td, log, labels, chain, spies)
         trackers = [r for r in chain if isinstance(r, m["Tracker"])]
         steps = []
-        for call in c["calls"]:
-            for s in spies:
-                del s[:]
-            res = _apply(runner, call, pool)
+        circuits = []
+        for item in plan:
+            if item[0] == "grow":
+                pool[item[1]].operations.append(_gate(item[2]))      # in place, on the object already submitted
+                continue
+            call, pool_idx = item[1], item[2]
+            lbls = call["cs"] if call["op"] == "batch" else [call["c"]]
+            if ephemeral:
+                del circuits                                         # the previous call's temporaries die here …
+                labels.clear()
+                if c.get("gc"):
+                    gc.collect(0)   # young generation only: a full collection costs ~30 ms with sympy loaded
+                circuits = [_build_circuit(specs[lb]) for lb in lbls]   # … and these take their place
+            else:
+                labels.clear()
+                circuits = [pool[i] for i in pool_idx]
+            for obj, lb in zip(circuits, lbls):
+                labels[id(obj)] = lb
+            call_ser = [_serialise(obj) for obj in circuits]         # the serialised circuits of THIS call
+            for lb, sr in zip(lbls, call_ser):
+                ser[lb] = sr
+            ns_before = list(call["ns"]) if "ns" in call else None
+            for sp in spies:
+                del sp[:]
+            res = _apply(runner, call, circuits)
             files = []
             for t in trackers:
                 if os.path.exists(t.raw_data_file_name):
@@ -240,9 +314,10 @@ def _history(c):
                     files.append(None)
             steps.append({"res": res,
                           "counters": [[r.n_circuits_executed, r.n_jobs_executed] for r in chain],
-                          "files": files, "tape_len": len(log),
-                          "inner_returns": [list(s) for s in spies],
+                          "files": files, "tape_len": len(log), "call_ser": call_ser,
+                          "inner_returns": [list(sp) for sp in spies],
                           "pending": [len(t.raw_data) for t in trackers]})
+        del circuits
         devices = [t.type for t in trackers]
         classes = [type(r).__name__ for r in chain]
     return {"steps": steps, "tape": log, "ser": ser, "devices": devices, "classes": classes}
@@ -289,12 +364,12 @@ def requests(c, out):
         if "steps" not in out:
             return []
         calls = []
-        for call in c["calls"]:
+        for call in _real_calls(c):
             cc = dict(call)
             if cc["op"] == "dist" and cc.get("n") is None:
                 cc.pop("n", None)
             calls.append(cc)
-        return [("history", {"runner": _model_runner(c["runner"]), "pool": [_abstract(s) for s in c["pool"]],
+        return [("history", {"runner": _model_runner(c["runner"]), "pool": [_abstract(s) for s in _resolve(c)[0]],
                              "calls": calls, "tape": out["tape"]})]
     if k == "format":
         return [("format", {"i": c["i"], "n": c["n"]})]
@@ -357,7 +432,7 @@ def compare(c, out, resp):
         return "the logged external executions violate the assumed law (>= n shots of register width / exactly n draws in range)"
     if len(r["steps"]) != len(out["steps"]):
         return "step count differs"
-    for i, (ms, st, call) in enumerate(zip(r["steps"], out["steps"], c["calls"])):
+    for i, (ms, st, call) in enumerate(zip(r["steps"], out["steps"], _real_calls(c))):
         where = f"call #{i} {call}"
         if not _res_matches(ms["res"], st["res"], call):
             return f"{where}: result differs: impl {str(st['res'])[:200]} model {str(ms['res'])[:200]}"
@@ -421,7 +496,8 @@ def _record_fail(rec, circ_ser, shots, n_ops, bits, device, what):
     if rec.get("data_type") != "measurement":
         return f"{what}: record type {rec.get('data_type')!r}"
     if rec.get("circuit") != circ_ser:
-        return f"{what}: recorded circuit is not the serialised circuit of the call"
+        return (f"{what}: recorded circuit {str(rec.get('circuit'))[:160]} is not the serialised circuit of this call "
+                f"{str(circ_ser)[:160]}")
     want = dict(Counter("".join(str(b) for b in s) for s in shots))
     if rec.get("counts") != want:
         return f"{what}: recorded counts {rec.get('counts')} but the returned measurements have {want}"
@@ -449,8 +525,10 @@ def _oracle_history(c, out):
     prev_counters = [[0, 0] for _ in out["classes"]]
     prev_files = [None] * n_trackers
     prev_tape = 0
-    for i, (call, st) in enumerate(zip(c["calls"], out["steps"])):
-        where = f"call #{i} {call} on {'>'.join(out['classes'])}"
+    all_specs = _resolve(c)[0]
+    for i, (call, st) in enumerate(zip(_real_calls(c), out["steps"])):
+        where = (f"call #{i} {call} on {'>'.join(out['classes'])}"
+                 + (" [every call on freshly built circuits that are dropped afterwards]" if c.get("ephemeral") else ""))
         res, counters = st["res"], st["counters"]
         executed = out["tape"][prev_tape:st["tape_len"]]
         # counters never decrease
@@ -472,7 +550,7 @@ def _oracle_history(c, out):
             fails.append(("unexpected-exception:" + res[4:], f"{where}: valid request raised {res[4:]}"))
         elif isinstance(res, str):
             # a valid request that failed: a circuit with free symbols, or None for a runner without exact distributions
-            specs = [c["pool"][j] for j in (call["cs"] if call["op"] == "batch" else [call["c"]])]
+            specs = [all_specs[j] for j in (call["cs"] if call["op"] == "batch" else [call["c"]])]
             symbolic = any(op[0] == "RXS" for sp in specs for op in sp["ops"])
             none_on_base = call["op"] == "dist" and call.get("n") is None and leaf["kind"] == "base"
             if not symbolic and not none_on_base:
@@ -484,7 +562,7 @@ def _oracle_history(c, out):
                     fails.append(("counter-increment", f"{where}: {ran} circuit(s) ran before the failure, counters grew by {d}"))
         else:
             cs = call["cs"] if call["op"] == "batch" else [call["c"]]
-            specs = [c["pool"][j] for j in cs]
+            specs = [all_specs[j] for j in cs]
             # base-class runner / simulator counters grow by exactly the work done
             wc = sum(_leaf_work(leaf, sp)[0] for sp in specs)
             wj = sum(_leaf_work(leaf, sp)[1] for sp in specs)
@@ -546,7 +624,7 @@ def _oracle_history(c, out):
                 bits = bool(tracker_specs[t]["bits"])
                 if kind == "dist":
                     rec = recs[0]
-                    if (rec.get("data_type") != "measurement outcome distribution" or rec.get("circuit") != out["ser"][cs[0]]
+                    if (rec.get("data_type") != "measurement outcome distribution" or rec.get("circuit") != st["call_ser"][0]
                             or rec.get("distribution") != mine["repr"] or rec.get("number_of_shots") != call.get("n")
                             or rec.get("number_of_gates") != len(specs[0]["ops"]) or rec.get("device") != out["devices"][t]):
                         fails.append(("tracker-record", f"{where}: tracker {t} distribution record {str(rec)[:200]} does not "
@@ -554,7 +632,7 @@ def _oracle_history(c, out):
                 else:
                     results = [mine] if kind == "run" else mine
                     for j, (rec, shots) in enumerate(zip(recs, results)):
-                        msg = _record_fail(rec, out["ser"][cs[j]], shots, len(specs[j]["ops"]), bits, out["devices"][t],
+                        msg = _record_fail(rec, st["call_ser"][j], shots, len(specs[j]["ops"]), bits, out["devices"][t],
                                            f"{where} tracker {t} record {j}")
                         if msg:
                             fails.append(("tracker-record", msg))
@@ -594,6 +672,26 @@ def _hist(runner, pool, calls):
     return {"kind": "history", "runner": runner, "pool": pool, "calls": calls}
 
 
+def _temporaries_history():
+    pool = []
+    for i in range(8):
+        ops = [["X", 0]] if i % 2 else [["H", 0], ["X", 0]]
+        ops.append(["RX", i % 3, ["1/2", "3/4", "-5/4", "2"][i % 4]])
+        if i % 4 == 0:
+            ops.append(["CNOT", 0, 2])
+        pool.append({"n": 3 + i % 2, "ops": ops})
+    calls = []
+    for i in range(24):
+        calls.append({"op": "run", "c": i % 8, "n": 2 + i % 3})
+        if i % 3 == 2:
+            calls.append({"op": "batch", "cs": [(i + k) % 8 for k in range(3)], "ns": [1, 2, 1]})
+        if i % 6 == 5:
+            calls.append({"op": "dist", "c": (i + 3) % 8, "n": 2})
+    h = _hist({"kind": "tracker", "bits": False, "inner": {"kind": "sim", "all_native": True, "seed": 3}}, pool, calls)
+    h["ephemeral"] = True
+    return h
+
+
 def corpus():
     sym = {"kind": "sim", "all_native": True, "seed": 7}
     dflt = {"kind": "sim", "all_native": False, "seed": 3}
@@ -618,6 +716,14 @@ def corpus():
               [{"op": "batch", "cs": [0, 1], "ns": [1, 2]}, {"op": "dist", "c": 0, "n": 2}, {"op": "run", "c": 1, "n": -1},
                {"op": "batch", "cs": [], "ns": []}]),
         _hist(sym, [symb], [{"op": "run", "c": 0, "n": 2}, {"op": "dist", "c": 0, "n": None}, {"op": "dist", "c": 0, "n": 2}]),
+        # one tracker, many calls on circuits that are built, run and dropped (ids get reused): every record must
+        # carry the serialised circuit of ITS call (seeded C14_r2m2: to_dict cached by id(circuit))
+        _temporaries_history(),
+        # a circuit object grown in place between two calls on the same tracker
+        _hist({"kind": "tracker", "bits": False, "inner": base}, [bell],
+              [{"op": "run", "c": 0, "n": 2}, {"op": "grow", "c": 0, "gate": ["X", 2]}, {"op": "run", "c": 0, "n": 2},
+               {"op": "grow", "c": 0, "gate": ["CNOT", 2, 0]}, {"op": "batch", "cs": [0, 0], "n": 1},
+               {"op": "dist", "c": 0, "n": 3}]),
         {"kind": "format", "i": 0, "n": 0},
         {"kind": "outcome", "n": 0},
         {"kind": "segments", "flags": [True, False, False, True]},
@@ -702,6 +808,55 @@ def _gen_runner(rng):
     return {"kind": "tracker", "bits": rng.random() < 0.5, "inner": t}
 
 
+def _gen_grow(rng, pool):
+    """append a gate in place to a pool circuit that has at least one qubit (the register width does not change)"""
+    cands = [i for i, sp in enumerate(pool) if _width(sp) >= 1]
+    if not cands:
+        return None
+    i = rng.choice(cands)
+    w = _width(pool[i])
+    if w >= 2 and rng.random() < 0.3:
+        a, b = rng.sample(range(w), 2)
+        gate = ["CNOT", a, b]
+    elif rng.random() < 0.3:
+        gate = ["RX", rng.randrange(w), rng.choice(["1/2", "3/4", "-5/4", "2"])]
+    else:
+        gate = [rng.choice(["H", "X"]), rng.randrange(w)]
+    return {"op": "grow", "c": i, "gate": gate}
+
+
+def _gen_history(rng, maxw, maxn, maxbatch, maxlen):
+    """one long-lived runner chain, a history of calls.  Two ways of handing circuits over:
+    persistent – one object per pool entry reused by every call (repeats inside a batch and across calls, sometimes
+    grown in place between calls); ephemeral – every call on freshly built temporaries that are dropped afterwards."""
+    runner = _gen_runner(rng)
+    tracked = runner["kind"] == "tracker"
+    ephemeral = rng.random() < (0.5 if tracked else 0.25)
+    pool = []
+    for _ in range(rng.randrange(3, 7) if ephemeral else rng.randrange(1, 5)):
+        for _try in range(5):
+            sp = _gen_circuit(rng, maxw, allow_mp=not tracked, allow_sym=rng.random() < 0.3)
+            if sp not in pool:
+                break
+        pool.append(sp)
+    n_calls = rng.randrange(6, 2 * maxlen + 1) if ephemeral else rng.randrange(1, maxlen)
+    calls = []
+    view = [dict(sp) for sp in pool]          # current content of every pool entry
+    for _ in range(n_calls):
+        if not ephemeral and rng.random() < 0.12:
+            g = _gen_grow(rng, view)
+            if g is not None:
+                view[g["c"]] = {"n": view[g["c"]].get("n"), "ops": view[g["c"]]["ops"] + [g["gate"]]}
+                calls.append(g)
+                continue
+        calls.append(_gen_call(rng, len(pool), min(maxn, 6) if ephemeral else maxn, maxbatch))
+    h = _hist(runner, pool, calls)
+    if ephemeral:
+        h["ephemeral"] = True
+        h["gc"] = rng.random() < 0.3
+    return h
+
+
 def generate(rng, tier):
     big = tier == "thorough"
     cases = []
@@ -714,12 +869,7 @@ def generate(rng, tier):
         cases.append({"kind": "segments", "flags": [rng.random() < 0.5 for _ in range(rng.randrange(0, 9))]})
     maxw, maxn, maxbatch = (5, 40, 6) if big else (3, 10, 4)
     for _ in range(2600 if big else 500):
-        runner = _gen_runner(rng)
-        tracked = runner["kind"] == "tracker"
-        pool = [_gen_circuit(rng, maxw, allow_mp=not tracked, allow_sym=rng.random() < 0.3)
-                for _ in range(rng.randrange(1, 5))]
-        calls = [_gen_call(rng, len(pool), maxn, maxbatch) for _ in range(rng.randrange(1, 12 if big else 8))]
-        cases.append(_hist(runner, pool, calls))
+        cases.append(_gen_history(rng, maxw, maxn, maxbatch, 12 if big else 8))
     # the malformed stream: histories made of invalid requests only (nothing may ever change)
     for _ in range(300 if big else 80):
         runner = _gen_runner(rng)
@@ -747,7 +897,7 @@ def generate(rng, tier):
 def nontrivial(c):
     if c["kind"] != "history":
         return False
-    calls = c["calls"]
+    calls = _real_calls(c)
     if len({call["op"] for call in calls}) < 2:
         return False
     rejected = sum(1 for call in calls if _invalid(call))
@@ -768,17 +918,19 @@ def distribution(cases, outs):
             s = s["inner"]
         names.append("base" if s["kind"] == "base" else ("symbolic-sim" if s["all_native"] else "default-native-sim"))
         runners[">".join(names)] += 1
-        for sp in c["pool"]:
+        for sp in _resolve(c)[0]:
             w = _width(sp)
             used = {q for op in sp["ops"] if op[0] != "MP" for q in op[1:3] if isinstance(q, int)}
             zero_width += w == 0
             idle += w > len(used) and not any(op[0] == "MP" for op in sp["ops"])
             non_gate += any(op[0] == "MP" for op in sp["ops"])
             symbolic += any(op[0] == "RXS" for op in sp["ops"])
-        for call, st in zip(c["calls"], o["steps"]):
+        for call, st in zip(_real_calls(c), o["steps"]):
             calls[call["op"] + (":invalid" if _invalid(call) else ":valid")] += 1
             results[st["res"] if isinstance(st["res"], str) else "ok"] += 1
     return {"histories": len(hs), "calls_by_kind": dict(calls), "results": dict(results), "runner_chains": dict(runners),
             "circuits_zero_width": zero_width, "circuits_with_idle_qubits": idle, "circuits_with_non_gate_ops": non_gate,
             "circuits_with_free_symbols": symbolic,
+            "ephemeral_histories": sum(1 for c, _ in hs if c.get("ephemeral")),
+            "grow_steps": sum(1 for c, _ in hs for call in c["calls"] if call["op"] == "grow"),
             "max_history_length": max((len(c["calls"]) for c, _ in hs), default=0)}
